@@ -26,7 +26,7 @@ def build_history(rng, cc, preds, n_ops, p_warm=0.55):
         if rng.random() < p_warm:
             h.append(dc.gen_warm(rng, 0, d, cc))
         else:
-            h.append(dc.gen_reg(rng, 0, d, preds, lambda: next(cnt)))
+            h.append(dc.gen_reg(rng, 0, d, preds, lambda: next(cnt), prev=h))
     return h
 
 
